@@ -9,10 +9,11 @@ From V.C11 Require Import ModelOrder GenInventory ModelEngine ModelInventory Pro
 Import ListNotations. Open Scope Z_scope.
 
 (* P is the dependency cone of d: a set of DefIds containing d, every member of which
-   resolves in the initial store to a definition whose dependencies are again in P. *)
+   resolves in the initial store to a definition whose dependency NAMES are in N; every name in
+   N is bound in the initial namespace, to a member of P where a cone definition uses it. *)
 Theorem history_independent_partial :
-  forall (P : Z -> Prop) (fuel : nat) (s0 : Sess) (h1 h2 : list op) (d : Z),
-    closed P s0 -> P d ->
+  forall (P N : Z -> Prop) (fuel : nat) (s0 : Sess) (h1 h2 : list op) (d : Z),
+    closed P N s0 -> P d ->
     outcome fuel (exec fuel h1 s0) d = outcome fuel (exec fuel h2 s0) d.
 Proof. exact history_independent_lemma. Qed.
 Print Assumptions history_independent_partial.
@@ -20,19 +21,19 @@ Print Assumptions history_independent_partial.
 (* whatever an operation did -- in particular if it failed half-way, leaving worklists,
    caches and mutated CFGs behind -- later compiles and plain-Python calls behave the same *)
 Theorem failed_op_harmless_partial :
-  forall (P : Z -> Prop) (fuel : nat) (s0 : Sess) (o : op) (d : Z),
-    closed P s0 -> P d ->
+  forall (P N : Z -> Prop) (fuel : nat) (s0 : Sess) (o : op) (d : Z),
+    closed P N s0 -> P d ->
     outcome fuel (exec_op fuel s0 o) d = outcome fuel s0 d /\
     pycall (exec_op fuel s0 o) = pycall s0.
 Proof.
-  intros P fuel s0 o d Hc HP. split.
-  - exact (history_independent_lemma P fuel s0 [o] [] d Hc HP).
-  - unfold pycall. destruct (exec_env fuel [o] s0) as [? [_ [_ T]]]. simpl in T. rewrite T. reflexivity.
+  intros P N fuel s0 o d Hc HP. split.
+  - exact (history_independent_lemma P N fuel s0 [o] [] d Hc HP).
+  - unfold pycall. destruct (exec_env fuel [o] s0) as [? [? [_ [_ [T _]]]]]. simpl in T. rewrite T. reflexivity.
 Qed.
 Print Assumptions failed_op_harmless_partial.
 
 Theorem tracing_restored : forall fuel h s, tracing (exec fuel h s) = tracing s.
-Proof. intros. destruct (exec_env fuel h s) as [? [_ [_ T]]]. exact T. Qed.
+Proof. intros. destruct (exec_env fuel h s) as [? [? [_ [_ [T _]]]]]. exact T. Qed.
 Print Assumptions tracing_restored.
 
 (* without the finally block the flag leaks out of a failed trace *)
@@ -40,6 +41,29 @@ Theorem trace_scope_without_finally_refuted :
   exists prev, trace_scope false true prev <> prev.
 Proof. exists false. discriminate. Qed.
 Print Assumptions trace_scope_without_finally_refuted.
+
+(* the module namespace is session state that reset() does NOT clear; check and compile
+   (after fix-3) leave it alone, only registering a definition extends it *)
+Theorem namespace_survives_reset_and_is_not_written :
+  forall fuel s d, ns (reset s) = ns s /\ ns (fst (check fuel s d)) = ns s /\
+                   ns (fst (fst (compile fuel s d))) = ns s.
+Proof.
+  intros. split; [reflexivity|]. split.
+  - destruct (check_env fuel s d) as [_ [_ [_ E]]]. exact E.
+  - destruct (compile_env fuel s d) as [_ [_ [_ E]]]. exact E.
+Qed.
+Print Assumptions namespace_survives_reset_and_is_not_written.
+
+(* binding a nested helper in the frame namespace itself (the code before fix-3) changes what
+   a name resolves to for the rest of the session *)
+Theorem nested_binding_in_frame_namespace_refuted :
+  exists s d x, lookup (bind_nested true s d) x <> lookup (ns s) x.
+Proof.
+  exists (mkSess [] 9 [] [] [] [] [] 0 0 0 false [] [(1, 1)]),
+         (mkDef false [] [1] true false true 0 0 0 0%nat 0%nat 0%nat false [] 0), 1.
+  vm_compute. discriminate.
+Qed.
+Print Assumptions nested_binding_in_frame_namespace_refuted.
 
 Theorem compile_reads_only_reset_state :
   forall fuel s s' d, reset s = reset s' -> compile fuel s d = compile fuel s' d.
@@ -86,10 +110,15 @@ Theorem mutation_sites_are_modelled :
   same_set mutation_sites modelled_mutations = true /\
   same_set input_tys_mentions modelled_input_tys_mentions = true.
 Proof. split; vm_compute; reflexivity. Qed.
+Theorem session_write_sites_are_modelled :
+  same_set session_write_sites modelled_write_sites = true /\ nested_writes_namespace = false.
+Proof. split; vm_compute; reflexivity. Qed.
 
 (* ---- a non-trivial instance: the hypotheses are satisfiable and the histories differ *)
-Definition D (ty : bool) deps ok ct tr ntmp nconst ngen rets insts rc row body : Def :=
-  mkDef ty deps ok ct tr ntmp 1 nconst ngen rets insts rc row body.
+Definition D (ty : bool) deps ok ct tr ntmp nconst ngen rets insts (rc : bool) row body : Def :=
+  mkDef ty deps (if rc then [1] else @nil Z) ok ct tr ntmp 1 nconst ngen rets insts rc row body.
+(* names coincide with ids in this instance; definitions 3 and 6 contain a nested recursive
+   helper named 1, like the module-level definition 1 *)
 Definition row2 : list var := [mkVar true [CText 3]; tmpv 2; tmpv 0; mkVar false [CText 1; CNum 10]].
 Definition pool : list (Z * Def) := [
   (0, D true  []        true  false true 0 1 2%nat 0%nat 0%nat false [] 10);        (* struct Pt *)
@@ -100,12 +129,17 @@ Definition pool : list (Z * Def) := [
   (5, D false [1; 2]    true  false true 0 0 0%nat 1%nat 0%nat false [] 15);        (* caller_of_bad *)
   (6, D false [0; 1]    true  false true 4 1 0%nat 2%nat 1%nat true row2 16)        (* use_struct *)
 ].
-Definition s_init : Sess := mkSess pool 7 [] [] [] [] [] 0 0 0 false [42].
+Definition s_init : Sess :=
+  mkSess pool 7 [] [] [] [] [] 0 0 0 false [42] [(0, 0); (1, 1); (2, 2); (3, 3); (4, 4); (5, 5); (6, 6)].
 Definition cone6 (id : Z) : Prop := In id [0; 1; 6].
-Example cone6_closed : closed cone6 s_init.
+Example cone6_closed : closed cone6 cone6 s_init.
 Proof.
-  intros id [H|[H|[H|[]]]]; subst; eexists; (split; [reflexivity|]); (split; [|reflexivity]);
-    repeat (apply Forall_cons; [unfold cone6; simpl; tauto|]); apply Forall_nil.
+  split.
+  - intros id [H|[H|[H|[]]]]; subst; eexists; (split; [reflexivity|]); (split; [|reflexivity]);
+      repeat (apply Forall_cons;
+              [split; [unfold cone6; simpl; tauto|eexists; split; [reflexivity|unfold cone6; simpl; tauto]]|]);
+      apply Forall_nil.
+  - intros x [H|[H|[H|[]]]]; subst; eexists; reflexivity.
 Qed.
 Definition hist : list op := [OCheck 5; OCompile 3; OCompile 6; OPyCall 1; OCompile 6].
 (* the history really leaves things behind: a failed check with a non-empty worklist, advanced
@@ -122,7 +156,7 @@ Example history_example :
   (exists fs e, outcome 50 s_init 6 = (Ok, Some (fs, e)) /\ (length fs >= 3)%nat) /\
   snd (compile 50 (exec 50 hist s_init) 6) <> snd (compile 50 s_init 6).
 Proof.
-  split; [exact (history_independent_partial cone6 50 s_init hist [] 6 cone6_closed (or_intror (or_intror (or_introl eq_refl))))|].
+  split; [exact (history_independent_partial cone6 cone6 50 s_init hist [] 6 cone6_closed (or_intror (or_intror (or_introl eq_refl))))|].
   split; [eexists; eexists; split; [vm_compute; reflexivity|simpl; lia]|].
   vm_compute. discriminate.
 Qed.
